@@ -200,6 +200,7 @@ pub(super) struct Exec {
     pub lines: Vec<String>,
     pub known_files: Vec<PathBuf>,
     pub settle_iters: u64,
+    pub abstract_state: u64,
 }
 
 macro_rules! lg {
@@ -282,6 +283,7 @@ impl Exec {
             lines: Vec::new(),
             known_files: Vec::new(),
             settle_iters: 0,
+            abstract_state: 0,
         }
     }
 
@@ -298,7 +300,7 @@ impl Exec {
         });
     }
 
-    fn harness(&mut self, msg: String) {
+    pub fn harness(&mut self, msg: String) {
         if self.harness_error.is_none() {
             self.harness_error = Some(msg);
         }
@@ -306,7 +308,7 @@ impl Exec {
     }
 
     /// Panics that tokio caught inside a spawned task (the writer)
-    fn absorb_tap(&mut self) {
+    pub fn absorb_tap(&mut self) {
         for (file, line, message) in tap_take() {
             let info = crate::sim::panic::PanicInfo { file, line, message };
             self.panic_finding(&info);
@@ -764,7 +766,55 @@ impl Exec {
                 break;
             }
             iters += 1;
-            if iters > 100_000 || started.elapsed().as_secs() > 20 {
+            if iters > 20_000 || started.elapsed().as_secs() > 20 {
+                // a flush was acknowledged although the file is shorter than what it covers:
+                // independent of the BufWriter model, a defect of the writer
+                let mut acked_short = None;
+                for inst in &self.insts {
+                    if inst.flush_admitted
+                        && inst.flush.as_ref().map(|p| p.woken()).unwrap_or(false)
+                    {
+                        let ws = &self.workers[inst.w];
+                        let len = ws.path.as_ref().and_then(|p| std::fs::metadata(p).ok()).map(|m| m.len()).unwrap_or(0);
+                        if len < inst.flush_mark {
+                            acked_short = Some((inst.t, inst.i, ws.id, len, inst.flush_mark));
+                        }
+                    }
+                }
+                if let Some((t, i, w, len, mark)) = acked_short {
+                    self.finding(
+                        "flush-acknowledged-without-data",
+                        "",
+                        format!("flush of task {t} instance {i} was acknowledged, the file of worker {w} has {len} bytes, the flush covers {mark}"),
+                    );
+                    self.abort = true;
+                    return Ok(());
+                }
+                if self.files_match() && !self.all_pending_woken() {
+                    let stuck: Vec<String> = self
+                        .insts
+                        .iter()
+                        .flat_map(|inst| {
+                            let mut v = Vec::new();
+                            for ch in 0..2 {
+                                if inst.lanes[ch].pending.as_ref().map(|(p, _)| !p.woken()).unwrap_or(false) {
+                                    v.push(format!("send t{} i{} c{ch}", inst.t, inst.i));
+                                }
+                            }
+                            if inst.flush.as_ref().map(|p| !p.woken()).unwrap_or(false) {
+                                v.push(format!("flush t{} i{}", inst.t, inst.i));
+                            }
+                            v
+                        })
+                        .collect();
+                    self.finding(
+                        "blocked-future-never-completes",
+                        "",
+                        format!("the writers consumed everything handed over (file lengths final), but these futures were never woken: {stuck:?}"),
+                    );
+                    self.abort = true;
+                    return Ok(());
+                }
                 let lens: Vec<String> = self
                     .workers
                     .iter()
